@@ -545,6 +545,28 @@ isal_deflate_icf_pass(struct isal_zstream *stream, uint8_t *inbuf_start)
 }
 
 static void
+isal_deflate_passes(struct isal_zstream *stream, uint8_t *start_in)
+{
+        struct isal_zstate *state = &stream->internal_state;
+
+        if (stream->level == 0)
+                isal_deflate_pass(stream);
+        else
+                isal_deflate_icf_pass(stream, start_in);
+
+        /* A pass that only completed a flush left pending by a previous call
+         * stops at the block boundary. Compress the input supplied with this
+         * call as well, so that a requested flush (or end of stream) covers it
+         * instead of being reported complete with that input only buffered. */
+        if (state->state == ZSTATE_NEW_HDR && stream->avail_in > 0 && stream->avail_out > 0) {
+                if (stream->level == 0)
+                        isal_deflate_pass(stream);
+                else
+                        isal_deflate_icf_pass(stream, start_in);
+        }
+}
+
+static void
 isal_deflate_int(struct isal_zstream *stream, uint8_t *start_in)
 {
         struct isal_zstate *state = &stream->internal_state;
@@ -572,21 +594,7 @@ isal_deflate_int(struct isal_zstream *stream, uint8_t *start_in)
         }
         assert(state->tmp_out_start == state->tmp_out_end);
 
-        if (stream->level == 0)
-                isal_deflate_pass(stream);
-        else
-                isal_deflate_icf_pass(stream, start_in);
-
-        /* A pass that only completed a flush left pending by a previous call
-         * stops at the block boundary. Compress the input supplied with this
-         * call as well, so that a requested flush (or end of stream) covers it
-         * instead of being reported complete with that input only buffered. */
-        if (state->state == ZSTATE_NEW_HDR && stream->avail_in > 0 && stream->avail_out > 0) {
-                if (stream->level == 0)
-                        isal_deflate_pass(stream);
-                else
-                        isal_deflate_icf_pass(stream, start_in);
-        }
+        isal_deflate_passes(stream, start_in);
 
         /* Fill temporary output buffer then complete filling output buffer */
         if (stream->avail_out > 0 && stream->avail_out < 8 && state->state != ZSTATE_NEW_HDR) {
@@ -602,10 +610,7 @@ isal_deflate_int(struct isal_zstream *stream, uint8_t *start_in)
                 stream->avail_out = sizeof(state->tmp_out_buff);
                 stream->total_out = 0;
 
-                if (stream->level == 0)
-                        isal_deflate_pass(stream);
-                else
-                        isal_deflate_icf_pass(stream, start_in);
+                isal_deflate_passes(stream, start_in);
 
                 state->tmp_out_start = 0;
                 state->tmp_out_end = stream->total_out;
